@@ -419,6 +419,64 @@ def _wait(proc, secs):
     try: proc.wait(timeout=secs); return True
     except subprocess.TimeoutExpired: return False
 
+# ----------------------------------------------------------------------------- order atoms: x.u < x.v  <=>  u < v
+_ORD_CACHE = {}
+def _flat_concat(e, out):
+    if z3.is_app(e) and e.decl().kind() == z3.Z3_OP_SEQ_CONCAT:
+        for ch in e.children(): _flat_concat(ch, out)
+    elif z3.is_string_value(e):
+        v = e.as_string() if not hasattr(e, 'py_value') else e.py_value()
+        if v: out.append(v)
+    else: out.append(e)
+    return out
+def _unflat(atoms):
+    zs = [z3.StringVal(a) if isinstance(a, str) else a for a in atoms]
+    if not zs: return z3.StringVal('')
+    return zs[0] if len(zs) == 1 else z3.Concat(*zs)
+def simp_order(e):
+    """rewrite every str.< / str.<= atom inside e by dropping the common leading part of its two sides (and deciding it when the next characters
+    are different literals).  Needed because a comparison emitted before a variable was refined to a literal stays in the path condition."""
+    k = e.get_id()
+    if k in _ORD_CACHE: return _ORD_CACHE[k][1]
+    r = _simp_order(e); _ORD_CACHE[k] = (e, r)        # keep e alive so that ids are not reused
+    if len(_ORD_CACHE) > 200000: _ORD_CACHE.clear()
+    return r
+def _simp_order(e):
+    if not z3.is_app(e) or e.num_args() == 0: return e
+    kind = e.decl().kind()
+    if kind in (z3.Z3_OP_STRING_LT, z3.Z3_OP_STRING_LE):
+        la, lb = _flat_concat(e.arg(0), []), _flat_concat(e.arg(1), [])
+        # merge adjacent literals
+        def merge(l):
+            o = []
+            for a in l:
+                if isinstance(a, str) and o and isinstance(o[-1], str): o[-1] += a
+                else: o.append(a)
+            return o
+        la, lb = merge(la), merge(lb); changed = False
+        while la and lb:
+            x, y = la[0], lb[0]
+            if isinstance(x, str) and isinstance(y, str):
+                n = 0
+                while n < len(x) and n < len(y) and x[n] == y[n]: n += 1
+                if n < len(x) and n < len(y): return z3.BoolVal(x[n] < y[n])
+                if n == 0: break
+                la[0] = x[n:]; lb[0] = y[n:]; changed = True
+                if not la[0]: la.pop(0)
+                if not lb[0]: lb.pop(0)
+                continue
+            if not isinstance(x, str) and not isinstance(y, str) and x.eq(y): la.pop(0); lb.pop(0); changed = True; continue
+            break
+        if not la and not lb: return z3.BoolVal(kind == z3.Z3_OP_STRING_LE)
+        if not lb and kind == z3.Z3_OP_STRING_LE: return _unflat(la) == z3.StringVal('')
+        if not changed: return e
+        za, zb_ = _unflat(la), _unflat(lb)
+        return za < zb_ if kind == z3.Z3_OP_STRING_LT else za <= zb_
+    if e.sort().kind() != z3.Z3_BOOL_SORT: return e
+    ch = e.children(); nch = [simp_order(c) for c in ch]
+    if all(a.eq(b) for a, b in zip(ch, nch)): return e
+    return e.decl()(*nch)
+
 # ----------------------------------------------------------------------------- path state
 DERIVE_CHARS = '/_.\n?:,&=%+#;~*<> \t\r'
 def _inre_mentions(c, vid):
@@ -506,7 +564,11 @@ class PathState:
             if c.get_id() in ids: continue
             ids.add(c.get_id())
             if z3.is_true(c): continue
-            cs.append(c)
+            c2 = simp_order(c)
+            if c2 is not c:
+                c2 = z3.simplify(c2)
+                if z3.is_true(c2): continue
+            cs.append(c2)
         names = set()
         seen = set()
         def walk(e):
@@ -526,8 +588,35 @@ class PathState:
             ex = self.excl.get(n, set()) - self.derived.get(n, set())    # derived exclusions are implied by the variable's own pattern constraint
             if ex: cs.append(z3.InRe(z3.String(n), self.excl_re(ex)))
         return cs
+    def _sliced(self, extra):
+        """cone of influence: the constraints that share variables (transitively) with `extra`.  The path condition is satisfiable by
+        invariant, so components that do not touch `extra` cannot make pc + extra unsatisfiable; an `unsat` of the slice is an `unsat` of the whole."""
+        cs = self._constraints(extra)
+        if not extra or len(cs) < 12 or os.environ.get('PYVC_NOSLICE'): return cs
+        def vars_of(e, memo={}):
+            k = e.get_id()
+            if k in memo: return memo[k][0]
+            out = set(); stack = [e]; seen = set()
+            while stack:
+                x = stack.pop()
+                if x.get_id() in seen: continue
+                seen.add(x.get_id())
+                if z3.is_const(x) and x.decl().kind() == z3.Z3_OP_UNINTERPRETED: out.add(x.decl().name())
+                stack.extend(x.children())
+            memo[k] = (out, e)
+            return out
+        vs = [vars_of(c) for c in cs]
+        want = set()
+        for e in extra: want |= vars_of(e)
+        if not want: return cs
+        changed = True
+        while changed:
+            changed = False
+            for v in vs:
+                if v & want and not v <= want: want |= v; changed = True
+        return [c for c, v in zip(cs, vs) if (v & want) or not v]
     def feasible(self, extra=()):
-        r = solve(self._constraints(extra), label='feasibility', budget_s=FEAS_S)
+        r = solve(self._sliced(list(extra)), label='feasibility', budget_s=FEAS_S)
         return r[0] == 'sat'
     def model(self, extra=(), budget_s=None):
         cs = self._constraints(extra, all_domains=True)
@@ -557,6 +646,8 @@ class PathState:
             try: return 'refuted', self.model()
             except Undecided as e: return 'undecided', str(e)
         try:
+            r0 = solve(self._sliced([z3.Not(cond.z)]), label='obligation-slice')        # unsat of the slice discharges the obligation
+            if r0[0] == 'unsat': return 'discharged', r0[2]
             r = solve(self._constraints([z3.Not(cond.z)], all_domains=True), want_model=True, label='obligation')
         except Undecided as e: return 'undecided', str(e)
         if r[0] == 'unsat': return 'discharged', r[2]
@@ -618,6 +709,18 @@ class PathState:
         return k
     def branch(self, cond, label=''):
         if isinstance(cond, bool): return cond
+        # a condition that was already decided on this path keeps its truth value (z3 terms are hash-consed: same structure, same id)
+        memo = self.__dict__.setdefault('_decided', {})
+        k = cond.z.get_id()
+        if k in memo and not os.environ.get('PYVC_NOMEMO'):
+            r = memo[k][0]
+            self.pc.append(cond.z if r else z3.Not(cond.z))      # kept (redundantly) so that callers that pop "their" constraint stay balanced
+            return r
+        r = self._branch(cond, label)
+        memo[k] = (r, cond.z)          # the term is kept alive so that its id is not reused
+        if z3.is_not(cond.z): memo[cond.z.arg(0).get_id()] = (not r, cond.z.arg(0))
+        return r
+    def _branch(self, cond, label=''):
         self._exhaustive = True
         try: k = self.choose([('T', [cond.z]), ('F', [z3.Not(cond.z)])], label)
         finally: self._exhaustive = False
